@@ -6,6 +6,7 @@
    implementation on the complete matrix of arena states and target settings. *)
 From Coq Require Import ZArith List.
 From BS Require Import Word BumpSpec ChunkSpec Arena ArenaInv ArenaExt ArenaMisc ArenaInv2 Conv LibRefine.
+From BS.gen Require AlignFacts.
 From BS.gen Require LibArith.
 Import ListNotations.
 Open Scope Z_scope.
@@ -85,6 +86,14 @@ Theorem C18_align_pos_is_the_code :
   LibArith.align_pos upb m (cpos ch) = Ok (align_posZ upb m (cpos ch)).
 Proof. exact align_pos_refines_chunk. Qed.
 
+(* the shapes behind aligned / scoped_aligned in the CURRENT source, read out on every run (gen/AlignFacts.v): a lowered
+   `aligned` runs its closure under a BumpAlignGuard (so the re-alignment also happens when the closure unwinds), the
+   guard re-aligns the chunk that is current at the EXIT, a raised `aligned` aligns before the closure runs,
+   scoped_aligned takes its checkpoint before it aligns, align_to aligns the current position in bump direction - the
+   steps the model takes (OAlignPush after the checkpoint, OAlignPop with re-alignment of the current chunk) *)
+Theorem C18_source_align_shapes_are_the_models : AlignFacts.align_shapes_ok = true.
+Proof. vm_compute. reflexivity. Qed.
+
 Print Assumptions C18_enter_aligns_and_keeps_blocks.
 Print Assumptions C18_exit_keeps_invariant.
 Print Assumptions C18_exit_realigns.
@@ -94,3 +103,4 @@ Print Assumptions C18_by_value_conversion_panics_iff.
 Print Assumptions C18_scope_conversion_panics_iff.
 Print Assumptions C18_borrow_conversions_never_panic.
 Print Assumptions C18_align_pos_is_the_code.
+Print Assumptions C18_source_align_shapes_are_the_models.
